@@ -199,7 +199,10 @@ def message_length(raw: bytes) -> Optional[int]:
         done, _, used = chunk_ref.decode(raw[body_at:])
         return body_at + used if done else None
     if b'content-length' in hd:
-        n = int(hd[b'content-length'])
+        v = hd[b'content-length'].strip()
+        if not v.isdigit():      # Content-Length = 1*DIGIT; int() would also take a sign or underscores
+            raise ValueError('invalid Content-Length %r' % v)
+        n = int(v)
         return body_at + n if len(raw) >= body_at + n else None
     return body_at
 
